@@ -92,6 +92,10 @@ pub fn vx_commit(&mut self, batch: VxEvents)
 // attribute set handed in by the application and completed by the mechanisms (unit attrset)
 #[verifier::external_body]
 pub struct StunAttributes { _p: () }
+impl StunAttributes {
+    // representation invariant of the attribute set (unit attrset): established by Default, kept by add/remove
+    pub uninterp spec fn wf(&self) -> bool;
+}
 #[verifier::external_body]
 pub struct MessageEncoder { _p: () }
 #[verifier::external_body]
@@ -134,7 +138,10 @@ pub fn validate_fingerprint(raw_buffer: &[u8], msg: &StunMessage) -> (r: Result<
     },
 { unimplemented!() }
 #[verifier::external_body]
-pub fn add_fingerprint_attribute(attributes: &mut StunAttributes) { unimplemented!() }
+pub fn add_fingerprint_attribute(attributes: &mut StunAttributes)
+    requires old(attributes).wf(),
+    ensures final(attributes).wf(),
+{ unimplemented!() }
 
 // credential mechanism (units cred): abstract state; `violated` is the documented marker set of C17
 #[verifier::external_body]
@@ -144,31 +151,12 @@ pub struct CredentialMechanismClient { _p: () }
 impl CredentialMechanismClient {
     pub uninterp spec fn st(&self) -> MechState;
     pub uninterp spec fn violated(&self) -> Set<TransactionId>;
-    #[verifier::external_body]
-    pub fn prepare_request(&mut self, attributes: &mut StunAttributes) -> (r: Result<(), StunAgentError>)
-        ensures final(self).violated() == old(self).violated(),
-            r is Err ==> !(r->Err_0 is MaxOutstandingRequestsReached),
-    { unimplemented!() }
-    #[verifier::external_body]
-    pub fn prepare_indication(&mut self, attributes: &mut StunAttributes) -> (r: Result<(), StunAgentError>)
-        ensures final(self).violated() == old(self).violated(),
-            r is Err ==> !(r->Err_0 is MaxOutstandingRequestsReached),
-    { unimplemented!() }
-    #[verifier::external_body]
-    pub fn recv_message(&mut self, raw_data: &[u8], message: &StunMessage) -> (r: Result<(), IntegrityError>)
-        ensures
-            // a message that is to be ignored changes nothing but, for a response on unreliable transport, the marker
-            (r is Err && r->Err_0 is Discarded) ==> final(self).st() == old(self).st()
-                && (final(self).violated() == old(self).violated()
-                    || (message.sclass() != MessageClass::Indication
-                        && final(self).violated() == old(self).violated().insert(message.sid()))),
-    { unimplemented!() }
-    #[verifier::external_body]
-    pub fn signal_protection_violated_on_timeout(&mut self, transaction_id: &TransactionId) -> (r: bool)
-        ensures r == old(self).violated().contains(*transaction_id),
-            final(self).violated() == old(self).violated().remove(*transaction_id),
-            final(self).st() == old(self).st(),
-    { unimplemented!() }
+    pub uninterp spec fn wf(&self) -> bool;
+    // contracts proved on the real dispatch + mechanisms in unit cred
+//@import cred :: stun_agent :: mod client > impl CredentialMechanismClient > fn prepare_request
+//@import cred :: stun_agent :: mod client > impl CredentialMechanismClient > fn prepare_indication
+//@import cred :: stun_agent :: mod client > impl CredentialMechanismClient > fn recv_message
+//@import cred :: stun_agent :: mod client > impl CredentialMechanismClient > fn signal_protection_violated_on_timeout
 }
 
 // ---------------------------------------------------------------- client.rs
@@ -218,7 +206,8 @@ pub open spec fn rtt_updated(h0: RttCalcuator, h1: RttCalcuator, r: Duration) ->
 //@item stun_agent :: mod client > fn prepare_stun_message
 //@tags C13 C10
 //@spec
-    ensures mechanism is Some ==> final(mechanism->Some_0).violated() == old(mechanism->Some_0).violated(),
+    requires old(attributes).wf(), mechanism is Some ==> old(mechanism->Some_0).wf(),
+    ensures mechanism is Some ==> final(mechanism->Some_0).violated() == old(mechanism->Some_0).violated() && final(mechanism->Some_0).wf(),
         r is Err ==> !(r->Err_0 is MaxOutstandingRequestsReached),
 //@end
 
@@ -370,6 +359,7 @@ impl StunClient {
     pub open spec fn wf(&self) -> bool {
         &&& self.timeouts.wf()
         &&& self.rtt.wf()
+        &&& (self.mechanism is Some ==> self.mechanism->Some_0.wf())
         &&& self.transactions@.dom().finite()
         &&& self.transactions@.len() <= self.max_transactions
         &&& self.timers_ok()
@@ -472,7 +462,9 @@ impl StunClient {
 //@item stun_agent :: mod client > impl StunClient > fn prepare_request
 //@tags C13
 //@spec
-    ensures final(self).transactions == old(self).transactions, final(self).timeouts == old(self).timeouts,
+    requires old(attributes).wf(), old(self).mechanism is Some ==> old(self).mechanism->Some_0.wf(),
+    ensures final(self).mechanism is Some ==> final(self).mechanism->Some_0.wf(),
+        old(self).mechanism is None ==> final(self).mechanism is None, final(self).transactions == old(self).transactions, final(self).timeouts == old(self).timeouts,
         final(self).rtt == old(self).rtt, final(self).max_transactions == old(self).max_transactions,
         final(self).transaction_events == old(self).transaction_events,
         final(self).use_fingerprint == old(self).use_fingerprint,
@@ -482,7 +474,9 @@ impl StunClient {
 //@item stun_agent :: mod client > impl StunClient > fn prepare_indication
 //@tags C13
 //@spec
-    ensures final(self).transactions == old(self).transactions, final(self).timeouts == old(self).timeouts,
+    requires old(attributes).wf(), old(self).mechanism is Some ==> old(self).mechanism->Some_0.wf(),
+    ensures final(self).mechanism is Some ==> final(self).mechanism->Some_0.wf(),
+        old(self).mechanism is None ==> final(self).mechanism is None, final(self).transactions == old(self).transactions, final(self).timeouts == old(self).timeouts,
         final(self).rtt == old(self).rtt, final(self).max_transactions == old(self).max_transactions,
         final(self).transaction_events == old(self).transaction_events,
         final(self).use_fingerprint == old(self).use_fingerprint,
@@ -551,7 +545,7 @@ impl StunClient {
                     self.transaction_events.events@[1]->RestransmissionTimeOut_0.1, instant.ns@));
     }
 //@spec
-    requires old(self).wf(),
+    requires old(self).wf(), attributes.wf(),
     ensures final(self).wf(),
         final(self).max_transactions == old(self).max_transactions,
         final(self).use_fingerprint == old(self).use_fingerprint,
@@ -584,7 +578,7 @@ impl StunClient {
 //@tags C12 C05 C13 C11
 //@rules R11
 //@spec
-    requires old(self).wf(),
+    requires old(self).wf(), attributes.wf(),
     ensures final(self).wf(),
         // C12: indications never consume a slot; they have no timer and no retransmissions
         final(self).transactions@ == old(self).transactions@, final(self).timeouts == old(self).timeouts,
@@ -839,6 +833,7 @@ impl StunClient {
             ==> self.transactions@.contains_key(id) && self.transactions@[id] == c0.transactions@[id],
         // mechanism: only the markers of served requests are consumed
         c0.mechanism is Some <==> self.mechanism is Some,
+        self.mechanism is Some ==> self.mechanism->Some_0.wf(),
         self.mechanism is Some ==> self.mechanism->Some_0.st() == c0.mechanism->Some_0.st()
             && forall|k: int| vx_i0 <= k < removed.len() ==> self.mechanism->Some_0.violated().contains(#[trigger] removed[k].transaction_id)
                 == c0.mechanism->Some_0.violated().contains(removed[k].transaction_id),
